@@ -10,6 +10,7 @@ import (
 	"path/filepath"
 	"strconv"
 	"strings"
+	"sync"
 
 	"github.com/Dash-Industry-Forum/livesim2/pkg/chunkparser"
 	"github.com/Eyevinn/dash-mpd/mpd"
@@ -23,6 +24,7 @@ type Receiver struct {
 	ctx        context.Context
 	prefix     string
 	storage    string
+	mu         sync.Mutex        // protects streams
 	streams    map[string]stream // mapped by stream.id()
 	channelMgr *ChannelMgr
 }
@@ -78,9 +80,14 @@ func (r *Receiver) SegmentHandlerFunc(w http.ResponseWriter, req *http.Request) 
 		discardUpload(w, req, http.StatusOK)
 		return
 	}
-	if _, ok := r.streams[stream.id()]; !ok {
-		log.Info("New stream", "urlPath", path, "streamId", stream.id(), "mediaType", stream.mediaType)
+	r.mu.Lock()
+	_, knownStream := r.streams[stream.id()]
+	if !knownStream {
 		r.streams[stream.id()] = stream
+	}
+	r.mu.Unlock()
+	if !knownStream {
+		log.Info("New stream", "urlPath", path, "streamId", stream.id(), "mediaType", stream.mediaType)
 		err := os.MkdirAll(stream.trDir, 0755)
 		if err != nil {
 			log.Error("Failed to create directory", "err", err)
